@@ -495,9 +495,12 @@ func reachingStores(load *ssa.UnOp, a *ssa.Alloc) (vals []ssa.Value, zero bool) 
 		}
 	}
 	back(load.Block(), instrIndex(load)-1)
-	// stores through captures
+	// stores through captures (a literal that is only deferred runs at exit: its stores cannot reach a load in the body)
 	for _, r := range *a.Referrers() {
 		if mc, ok := r.(*ssa.MakeClosure); ok {
+			if onlyDeferred(mc) {
+				continue
+			}
 			if g, ok := mc.Fn.(*ssa.Function); ok {
 				for i, b := range mc.Bindings {
 					if b == ssa.Value(a) && i < len(g.FreeVars) {
@@ -1036,4 +1039,19 @@ func returnedAlong(prev, b *ssa.BasicBlock, idx int) ssa.Value {
 		prev, b = b, b.Succs[0]
 	}
 	return nil
+}
+
+// onlyDeferred: every use of the closure value is as the callee of a defer.
+func onlyDeferred(mc *ssa.MakeClosure) bool {
+	refs := mc.Referrers()
+	if refs == nil || len(*refs) == 0 {
+		return false
+	}
+	for _, r := range *refs {
+		d, ok := r.(*ssa.Defer)
+		if !ok || d.Call.Value != ssa.Value(mc) {
+			return false
+		}
+	}
+	return true
 }
